@@ -38,6 +38,9 @@ CLAUSE → THEOREM TABLE (review R1).  Standing hypotheses = the property's quan
   make_derived_metric = the equivalent MetricFrame call   derived_eq_metricframe, derived_eq, derived_finish_eq,
       derived_make_eq / _ok_iff / _fails, derived_route, derived_bad_method, derived_nameless_ok,
       derived_call_eq_finish (the whole __call__: routing of sample_weight / method, then the MetricFrame call)
+  the MetricFrame accessor each function calls (default errors= / method=, cache slot, the (method, errors) the slot was
+      computed with by `_populate_results`, `_extract_result`)   LIFTED (`Generated/PopulateSrc.lean`, `FrameSrc.extract_result`):
+      applyAgg_lifted_eq_model, run_lifted_eq_model, src_accessor_calls
 Consistency corollaries (C03X.lean): eodds_ge_eopp, dp_ratio_one_iff_difference_zero, dp_ranges, eopp_eodds_ranges.
 -/
 import FairModel.Lemmas.Fairness
@@ -534,7 +537,7 @@ theorem derived_eq_metricframe (m : Metric) (meth : Method) (nsf : Nat) (rows : 
 theorem run_group_method_irrelevant (m : Metric) (meth : Method) (b : Bool) (nsf : Nat) (rows : List (Row Dat)) :
     run m .groupMin meth b nsf rows = run m .groupMin .between true nsf rows ∧
     run m .groupMax meth b nsf rows = run m .groupMax .between true nsf rows := by
-  constructor <;> simp [run, applyAgg]
+  constructor <;> simp [run, applyAgg, applyAggGot]
 
 /-! ### argument plumbing of `make_derived_metric` (`Model/Derived.lean` over the generated `DerivedSpec`) -/
 
@@ -605,7 +608,7 @@ theorem derived_finish_eq (d : Derived.Made) (s : String) (m : Method) (hm : Der
     Derived.finish d (some (.str s)) nsf rows = (derived .meanpred d.transform m nsf rows).map Derived.ofRes ∧
     Derived.finish d none nsf rows = (derived .meanpred d.transform .between nsf rows).map Derived.ofRes := by
   have hrun : ∀ k, run .meanpred k m false nsf rows = run .meanpred k .between false nsf rows := by
-    intro k; simp [run, applyAgg]
+    intro k; simp [run, applyAgg, applyAggGot]
   unfold Derived.finish derived
   cases FairnessSpec.dispatch.find? (fun e => e.1 == d.transform) with
   | none => simp
@@ -1010,5 +1013,42 @@ example : ("accuracy_score_group_min", "accuracy_score", "group_min") ∈ genera
 example : generated "zero_one_loss_group_max" .between 1 exEO = some (some (.value (fin (1/2)))) := by decide +kernel
 example : generated "mean_squared_error_group_max" .toOverall 1 exEO = some (some (.value (fin (1/2)))) := by decide +kernel
 example : generated "true_negative_rate_difference" .toOverall 1 exEO = some (some (.value (fin (5/21)))) := by decide +kernel
+
+/-! ### the MetricFrame accessor a fairness function calls is read from the LIFTED result cache
+
+`Fairness.applyAgg` (used by `run`, `named`, `eodds`, `derived`, `generated` and by the driver ops `fair.eval` /
+`fair.derived`) is computed WITH `Generated/PopulateSrc.lean` (lifter `populate.py`: the default `errors=` / `method=` of
+`MetricFrame.group_min / group_max / difference / ratio`, the cache slot each of them returns, the `(method, errors)` the
+loops of `_populate_results` computed that slot with, the `no_control_levels=` flag) and the lifted `_extract_result` of
+`Generated/FrameSrc.lean`.  The theorems below say that this is the call every other theorem of this file is about:
+`difference(method=m)` / `ratio(method=m)` with errors='coerce', `group_min()` / `group_max()` with errors='raise',
+`between_groups` when `method=` is not passed on, and `.iloc[0]` of the one-entry result.  A source edit that changes a
+default, the slot an accessor reads, the errors / method value a slot is computed with or the extract flag breaks them. -/
+
+theorem applyAgg_lifted_eq_model {α : Type} (k : AggKind) (meth : Method) (withMethod : Bool) (nsf : Nat)
+    (f : List α → Cell) (rows : List (Row α)) :
+    applyAgg k meth withMethod (ofFrame 0 nsf f rows) = applyAggModel k meth withMethod (ofFrame 0 nsf f rows) :=
+  applyAgg_lifted_eq k meth withMethod _ rfl
+
+/-- `run` (one MetricFrame of a bare callable + one accessor call) in terms of the hard-coded accessor model -/
+theorem run_lifted_eq_model (m : Metric) (k : AggKind) (meth : Method) (withMethod : Bool) (nsf : Nat)
+    (rows : List (Row Dat)) :
+    run m k meth withMethod nsf rows =
+      if frameRaised (ofFrame 0 nsf (eval m) rows) then .raised
+      else extract (applyAggModel k meth withMethod (ofFrame 0 nsf (eval m) rows)) := by
+  unfold run
+  simp only [applyAgg_lifted_eq_model]
+
+/-- the accessor call itself: documented defaults, and the scalar (`.iloc[0]`) is what is handed out -/
+theorem src_accessor_calls (k : AggKind) (meth : Method) (withMethod : Bool) (t : Tables) (h : t.ncf = 0) :
+    applyAggGot k meth withMethod t = .got .entry0 (applyAggModel k meth withMethod t) := by
+  unfold applyAggGot applyAggModel
+  cases k <;> cases withMethod <;> cases meth <;>
+    simp [AggCache.groupMinPub, AggCache.groupMaxPub, AggCache.differencePub, AggCache.ratioPub, AggCache.cached,
+      AggCache.entryOf, AggCache.evalCall, AggCache.extractFails, PopulateSrc.populate, PopulateSrc.validErrors,
+      PopulateSrc.compareMethods, PopulateSrc.groupMinDefaultErrors, PopulateSrc.groupMaxDefaultErrors,
+      PopulateSrc.differenceDefaultMethod, PopulateSrc.differenceDefaultErrors, PopulateSrc.ratioDefaultMethod,
+      PopulateSrc.ratioDefaultErrors, PopulateSrc.groupMinSlot, PopulateSrc.groupMaxSlot, PopulateSrc.differenceSlot,
+      PopulateSrc.ratioSlot, FrameSrc.extract_result, h, groupMin, groupMax]
 
 end C03
